@@ -3,10 +3,10 @@
 import json, os
 V = os.path.dirname(os.path.dirname(os.path.abspath(__file__)))
 CHECKS = {
- "C01": ("seqx", "4 C01", "explicit-state BFS over request/clock/provider/fault histories on the real handler and stores (memory, Redis) with an abstract-session oracle",
+ "C01": ("seqx", "4 C01", "explicit-state BFS over request/clock/provider/fault histories (store calls, single Redis commands, token endpoint, key lookups; honest answer shapes; absolute/idle time-outs; two replicas) on the real handler and stores (memory, Redis) with an abstract-session oracle, plus start-up pairs of filters on different stores at server level",
          "Every OK verdict in every explored history (quick: depth 5, every env call of every check failing before/after/crash; thorough: depth 6 with single faults plus depth 4 with all pairs of faults) is justified by the ghost store + provider ledger and a fault-free check.",
-         "Handler-level (Process on a per-check handler, as Check builds it); session time-outs 0; alphabet-bounded."),
- "C02": ("seqx", "4 C02", "explicit-state BFS over login/refresh histories with a 37-element adversarial ID-token grammar as provider answers; independent stdlib JWS verifier as oracle",
+         "Handler-level (Process on a per-check handler, as Check builds it); time-outs only in the expiry specs; alphabet-bounded; small searches run first."),
+ "C02": ("seqx", "4 C02", "explicit-state BFS over login/refresh histories with a 42-element adversarial ID-token grammar and 5 honest answer shapes; exhaustive interleavings of two checks under an adversarial refresh; server-level pairs of providers differing only in port / discovery selector; independent stdlib JWS verifier as oracle",
          "Every SetTokenResponse in every explored history stores a token the simulated provider returned in that check (or the one already bound) that passes an independent signature/audience/nonce validator; every OK forwards exactly the bound tokens under the configured header/preamble.",
          "Grammar-bounded: validly signed non-compact serialisations and whitespace-wrapped tokens are outside it; handler-level."),
  "C03": ("enumx", "4 C03", "bounded-exhaustive enumeration of complete browser flows (provider answer shapes x configurations x targets) on the real handler with a redirect-following driver",
@@ -15,7 +15,7 @@ CHECKS = {
  "C04": ("seqx+schedx", "4 C04", "explicit-state BFS over multi-browser/attacker callback histories against a strict ledger-keeping provider, plus exhaustive interleavings of concurrent callbacks",
          "Every authorization-code token request in every explored history/schedule is justified by the login state issued to the session named by the cookie (state equality incl. near-miss/duplicated parameters, stored verifier matching the sent challenge, redirect_uri, client credentials, code); a consumed login state never causes a second exchange or an authenticated session.",
          "Overlapping identical callbacks may both exchange; with duplicated parameters any occurrence may count."),
- "C05": ("seqx", "4 C05", "explicit-state BFS with the real random id generator; ghost sets of presented/issued ids; RFC 6265 Set-Cookie parser as oracle",
+ "C05": ("seqx", "4 C05", "explicit-state BFS with the real random id generator (incl. sloppy Cookie headers), exhaustive interleavings of checks on one expired session against a rotating provider, and a volume pass of thousands of visitors on one store; ghost sets of presented/issued ids; RFC 6265 Set-Cookie parser as oracle",
          "In every explored history (depth 6/7, 3 cookie prefixes, memory+Redis) each login redirect issues an id never presented or issued before and leaves nothing under the presented id; tokens/login state are only stored under issued ids; every Set-Cookie is __Host-, Path=/, no Domain, Secure, HttpOnly, SameSite; logout expires it.",
          "Handler-level; prefixes are RFC 6265 tokens."),
  "C08": ("enumx", "4 C08", "bounded-exhaustive enumeration of chain lists x header maps against an independent reference evaluator on the real ExtAuthZFilter.Check (mock and real OIDC filters)",
@@ -24,13 +24,13 @@ CHECKS = {
  "C09": ("schedx+seqx", "4 C09", "exhaustive schedule exploration (pre-emption bounded) of logout vs concurrent checks on the real handler and stores under a cooperative scheduler, plus a sequential BFS for the logout answer",
          "All interleavings at store-call/token-call granularity (bound 2 quick; unbounded 2 threads + bound 3 for 3 threads thorough) of a logout with checks on a fresh/expired/mid-login session, memory and Redis: no OK produced after the logout answer and no OK on the follow-up request, except the listed known findings; the logout answer is the end-session redirect with an expired cookie, or an error when the removal failed.",
          "Atomic blocks between environment calls; known findings for the refresh/callback write that re-creates a removed session."),
- "C10": ("seqx", "4 C10", "explicit-state BFS over store operation/clock histories with a candidate-set (relational) reference of created/last-use times",
+ "C10": ("seqx", "4 C10", "explicit-state BFS over store operation/clock/sweep histories with a candidate-set (relational) reference of created/last-use times; handler-level BFS with a rotating provider; start-up pairs on one Redis server; real-time and binary-level replays",
          "For 6 (absolute, idle) pairs and both stores, every history up to depth 8 (11 thorough, two ids at depth 8) without any manual sweep: no read returns data past creation+absolute or last-use+idle, none drops a session more than one second inside both limits, activity never moves the absolute limit.",
          "Store level with a virtual clock; one-second band; the system-level real-time replay lives in C18's check."),
- "C11": ("seqx", "4 C11", "explicit-state BFS from the logged-in state over many token lifetimes against a ledger-keeping provider; reference merge as oracle",
+ "C11": ("seqx", "4 C11", "explicit-state BFS from the logged-in state over many token lifetimes against a ledger-keeping provider (incl. cancellation of the check at every environment call, memory store); exhaustive interleavings of two overlapping refreshes; reference merge as oracle",
          "Every refresh-grant request in every explored history (depth 9/12) carries the provider's current refresh token and the client credentials; on an honest 200 the stored and forwarded result equals the reference merge; on any failure the request is denied, the stale session is gone and a re-login redirect with a new cookie is answered.",
          "Unparsable id_token in a refresh answer is outside the alphabet; expiry compared with 10 s tolerance."),
- "C12": ("seqx+schedx", "4 C12", "explicit-state BFS differential (memory vs Redis vs plain map, two Redis store instances) to saturation, plus exhaustive interleavings of the memory store with a brute-force linearizability check",
+ "C12": ("seqx+schedx", "4 C12", "explicit-state BFS differential (memory vs Redis vs plain map with created/last-used, two Redis store instances; without time-outs, with an absolute one, with both) to saturation, reference state in the canonical state, plus exhaustive interleavings of the memory store with a brute-force linearizability check",
          "The sequential state space (625 abstract states x 41 operations) is explored until no new state appears: every read and the whole content agree with the plain-map reference on both stores, whichever Redis instance serves the operation; every interleaving (at each lock operation) of the 2-3 thread harnesses is linearizable w.r.t. the reference.",
          "Time-outs 0 (expiry is C10's); Clear's error on an absent id not compared."),
  "C13": ("enumx", "4 C13", "bounded-exhaustive enumeration of client ids/scopes/URIs/targets judged by a hand-written RFC 3986 splitter and form decoder",
@@ -51,7 +51,7 @@ CHECKS = {
  "C18": ("seqx", "4 C18", "explicit-state BFS at server level (real loader, real store factory PreRun, real ExtAuthZFilter.Check, one simulated provider realm per filter over an in-memory network) plus a one-sided real-time replay",
          "For every layout (shared memory / one Redis / two Redis x same or distinct cookie names x differing time-outs) and every history of logins and cross-filter cookie presentations (as issued, renamed, both names): a chain answers OK only for sessions created through it and forwards its own realm's tokens, redirects and token requests use its own provider and credentials, Redis TTLs follow the filter's own time-outs - except the listed known findings (shared store keyed by session id; first/last filter's time-outs).",
          "Real clock at server level (no expiry/refresh in these histories); real-time part asserts only 'dead after 4 s for a 2 s limit' and 'alive for 3600 s'."),
- "C19": ("seqx", "4 C19", "explicit-state BFS over Secret events and Reconcile deliveries on the real SecretController (controller-runtime fake client) against a reference map",
+ "C19": ("seqx", "4 C19", "explicit-state BFS over Secret events (incl. deletion timestamps in the future), Reconcile deliveries and requests served by a long-lived ExtAuthZFilter on the real SecretController (controller-runtime fake client) against a reference map; all triples of references at start-up; a volume pass of rotations",
          "For every explored history (depth 6 quick / 7 thorough over 4 Secret objects, 3 or all 28 filter-to-secret assignments) every filter's client secret equals the last non-empty value reconciled while not deleting for the Secret it references, literal filters and other namespaces' Secrets never change anything, the token endpoint sees the current value, and cross-namespace references are refused at start-up.",
          "Reconcile deliveries are explicit events; informer machinery not modelled."),
  "C20": ("enumx+seqx+schedx", "4 C20", "full product of TLS settings judged by real handshakes; BFS over CA rotation histories with a virtual ticker; exhaustive interleavings of concurrent loads and rotation",
